@@ -651,6 +651,7 @@ func (d *c12nDb) rowBits(text string) (res string) {
 }
 
 type c12nJob struct {
+	store               string // "" / things: stream n (this file); twins: stream m (c12w5.go)
 	stream, filter, pre string
 	atoms, texts        []string
 	caseLine, implLine  string
@@ -741,7 +742,7 @@ func c12nFromLine(f []string) *c12nJob {
 	if len(f) < 9 {
 		return nil
 	}
-	j := &c12nJob{stream: f[1], filter: string(unhx(f[4])), pre: f[5], atoms: strings.Split(f[6], ",")}
+	j := &c12nJob{store: f[2], stream: f[1], filter: string(unhx(f[4])), pre: f[5], atoms: strings.Split(f[6], ",")}
 	for _, h := range strings.Split(f[7], ",") {
 		j.texts = append(j.texts, string(unhx(h)))
 	}
